@@ -8,7 +8,7 @@
    fx = true  : mpf with fixes/C07-*.patch (what ./check C07 ties to the code)
    fx = false : the code as found (only used by the _refuted theorems). *)
 From Common Require Import Prelude.
-From C07 Require Import Model Lemmas.
+From C07 Require Import Model Lemmas Devices LemDevices LemLive Controller.
 Open Scope Z_scope.
 
 (* 1. "each mode moves strictly stopped, starting, active, stopping, stopped, posting its will_start / starting /
@@ -64,10 +64,46 @@ Proof. exact others_untouched_l. Qed.
 Print Assumptions others_untouched.
 
 (* 4. "every accepted start eventually becomes active and every accepted stop eventually completes".
-      PARTIAL: delivery of a completion is the event bus' obligation (C02) and is not modelled; what is proved is
-      that the mode never wedges itself: whenever the bus delivers the completion that is outstanding in a phase, the
-      step is accepted and moves on (Starting -> Active -> ... -> Idle).  Missing for the full statement: fairness
-      of the bus (checked on the code by the oracle: no mode is left inside a transition at the end of a run). *)
+      FULL statement: in every infinite execution each mode that is Starting is Active later and each mode that is
+      Stopping is Idle (or starting again) later.  It splits into (a) the mode's part and (b) the bus' part:
+      (a) PROVED here for all states and all continuations h (either version of the code): while a transition is
+          open NOTHING ELSE - no request, completion or registration of this or any other mode - moves the mode out
+          of it or consumes the outstanding completion, and at the first delivery of the completion it is accepted and
+          the mode is in the next phase.  Hence "h contains the completion" (the bus delivers it) is the ONLY
+          hypothesis left.
+      (b) NOT modelled here: the bus delivers the completion of a queue event once every handler released it, and
+          runs the callback of a posted event (C02's theorems; checked on the code by the oracle at EVERY quiescent
+          point: a mode is inside a transition only while a generated handler provably still holds its queue). *)
+Theorem accepted_start_becomes_active_if_delivered :
+  forall fx s h m, ph s m = Starting -> In (QStarted m) h ->
+  exists h1 h2, h = h1 ++ QStarted m :: h2 /\ ~ In (QStarted m) h1 /\
+    ph (fst (run_from fx s h1)) m = Starting /\
+    ph (fst (run_from fx s (h1 ++ [QStarted m]))) m = Active /\
+    r_status (snd (step fx (fst (run_from fx s h1)) (QStarted m))) = 1.
+Proof. exact started_when_delivered. Qed.
+Print Assumptions accepted_start_becomes_active_if_delivered.
+
+Theorem accepted_stop_completes_if_delivered :
+  forall fx s h m, ph s m = Stopping -> In (QStopped m) h ->
+  exists h1 h2, h = h1 ++ QStopped m :: h2 /\ ~ In (QStopped m) h1 /\
+    ph (fst (run_from fx s h1)) m = Stopping /\
+    ph (fst (run_from fx s (h1 ++ [QStopped m]))) m = Winding /\
+    r_status (snd (step fx (fst (run_from fx s h1)) (QStopped m))) = 1.
+Proof. exact stopped_when_delivered. Qed.
+Print Assumptions accepted_stop_completes_if_delivered.
+
+(*    the wind-up (callback of mode_<m>_stopped outstanding) ends at the first delivery of the callback - mode Idle -
+      or earlier with a restart of the mode, which (fixed code) performs the clean-up itself - mode Starting *)
+Theorem stop_wind_up_completes_if_delivered :
+  forall s h m, ph s m = Winding -> In (CbStopped m) h ->
+  exists h1 o h2, h = h1 ++ o :: h2 /\ (o = CbStopped m \/ exists p, o = Start m p) /\
+    ph (fst (run_from true s h1)) m = Winding /\
+    (o = CbStopped m -> ph (fst (run_from true s (h1 ++ [o]))) m = Idle) /\
+    ((exists p, o = Start m p) -> ph (fst (run_from true s (h1 ++ [o]))) m = Starting).
+Proof. exact wound_up_when_delivered. Qed.
+Print Assumptions stop_wind_up_completes_if_delivered.
+
+(*    one-step form (kept from the first round): a delivered completion is accepted *)
 Theorem accepted_transitions_complete_partial :
   forall fx s m,
     (ph s m = Starting -> r_status (snd (step fx s (QStarted m))) = 1 /\ ph (fst (step fx s (QStarted m))) m = Active) /\
@@ -75,6 +111,17 @@ Theorem accepted_transitions_complete_partial :
     (ph s m = Winding -> r_status (snd (step fx s (CbStopped m))) = 1 /\ ph (fst (step fx s (CbStopped m))) m = Idle).
 Proof. exact completions_accepted_l. Qed.
 Print Assumptions accepted_transitions_complete_partial.
+
+(* a start that is still waiting for a held queue while stop requests, other modes' complete cycles and registrations
+   go by: it becomes active exactly at the delivery *)
+Example ex_delivery :
+  let s := fst (run_from true init_state [Start 1 100; Start 2 50; QStarted 2]) in
+  let h := [Stop 1; Stop 2; Add 0 1 7; QStopped 2; CbStopped 2; Start 1 5; QStarted 1; Stop 1] in
+  ph s 1 = Starting /\ In (QStarted 1) h /\
+  ph (fst (run_from true s (firstn 6 h))) 1 = Starting /\ ph (fst (run_from true s (firstn 7 h))) 1 = Active /\
+  pri (fst (run_from true s (firstn 7 h))) 1 = 100.
+Proof. vm_compute. repeat split; auto 10. Qed.
+Print Assumptions ex_delivery.
 
 (* stop() is accepted exactly when the mode is active (also while it is already stopping); in particular a stop
    that arrives while the mode is still starting is refused, as in the code (returns False) *)
@@ -143,3 +190,117 @@ Example ex_idle_after_full_cycle :
   ph (run_state true h) 1 = Idle /\ reg (run_state true h) = [] /\ length (proj 1 (run_events true h)) = 6%nat.
 Proof. exact ex_idle_after_cycle. Qed.
 Print Assumptions ex_idle_after_full_cycle.
+
+(* ================================================================================================================
+   The mode-device layer (Devices.v): one mode with its devices (shots / EnableDisableMixin devices), their
+   registrations, the persisted enable flags and the delayed control events on Mode.delay.  A history is any list of
+       DStart | DQStarted | DStop | DQStopped | DCbStopped   executions of the mode's lifecycle methods (any order)
+     | DCtl d a      the control event of action a (enable / disable / restart / reset) of device d is POSTED
+                     (before, during or after the mode's lifetime; redundant and repeated posts included)
+     | DFire d a     the clock delivers a pending delayed control event
+     | DHit d        a switch of shot d is activated
+   for every configuration w (persist_enable, start_enabled, which control events are delayed, which ids are devices). *)
+
+(* 5. sentence 3 of the property for the device layer: whenever the mode is idle again, no device is loaded, no handler
+      of any device is registered (tracked or not), no delayed control event is pending and the mode's control-event
+      handlers are gone - for every history, however many cycles, whatever was posted when. *)
+Theorem dev_registry_restored :
+  forall w h, dph (drun w h) = Idle ->
+    (forall d, d_loaded (dvs (drun w h) d) = false /\ d_reg (dvs (drun w h) d) = 0 /\ d_trk (dvs (drun w h) d) = 0) /\
+    dly (drun w h) = [] /\ hnd (drun w h) = false.
+Proof. exact dev_registry_restored_l. Qed.
+Print Assumptions dev_registry_restored.
+
+(*    the reason: at every instant every registration of a device is tracked by the device's key list (so the
+      removal reaches it), and there is exactly one while the device is loaded and enabled, none otherwise
+      ("cumulative leak" excluded: redundant enable requests never add a second registration) *)
+Theorem dev_registrations_tracked :
+  forall w h d, let x := dvs (drun w h) d in
+    d_reg x = d_trk x /\ d_reg x = (if d_loaded x && enabled (w_cfg w d) x then 1 else 0).
+Proof. exact dev_registrations_tracked_l. Qed.
+Print Assumptions dev_registrations_tracked.
+
+(*    observable consequence: one switch activation hits an enabled shot exactly once and a disabled one never; a
+      shot can only be enabled while its mode has it loaded *)
+Theorem dev_one_hit_per_activation :
+  forall w h d, snd (snd (dstep w (drun w h) (DHit d))) = (if enabled (w_cfg w d) (dvs (drun w h) d) then 1 else 0)
+                /\ (enabled (w_cfg w d) (dvs (drun w h) d) = true -> d_loaded (dvs (drun w h) d) = true).
+Proof. exact dev_one_hit_per_activation_l. Qed.
+Print Assumptions dev_one_hit_per_activation.
+
+(*    no control action ever reaches a device whose mode is gone (status 3 = the code would raise / act on a removed
+      device): late control events find no handler, pending delays were cancelled by the stop *)
+Theorem dev_actions_only_on_loaded :
+  forall w h o, fst (snd (dstep w (drun w h) o)) <> 3.
+Proof. exact dev_actions_only_on_loaded_l. Qed.
+Print Assumptions dev_actions_only_on_loaded.
+
+(*    a redundant request (enable / restart of an enabled device, disable of a disabled one) changes nothing, in any
+      state (reachable or not) *)
+Theorem dev_redundant_request_noop :
+  forall w s d a, d_loaded (dvs s d) = true ->
+    ((a = a_enable \/ a = a_restart) /\ enabled (w_cfg w d) (dvs s d) = true \/
+     a = a_disable /\ is_disabled (w_cfg w d) (dvs s d) = true) ->
+    let s' := fst (run_action w s d a) in
+    (forall x, dvs s' x = dvs s x) /\ dly s' = dly s /\ dph s' = dph s /\ hnd s' = hnd s.
+Proof. exact dev_redundant_request_noop_l. Qed.
+Print Assumptions dev_redundant_request_noop.
+
+(*    stop() cancels every pending delayed control event *)
+Theorem dev_stop_cancels_delays :
+  forall w h, dph (drun w h) = Active -> dly (fst (dstep w (drun w h) DStop)) = [].
+Proof. exact dev_stop_cancels_delays_l. Qed.
+Print Assumptions dev_stop_cancels_delays.
+
+(*    the device layer refines the lifecycle model: its phase is the phase Model.v assigns to the mode under the same
+      lifecycle operations (so theorems 1-4 apply to the mode of the device layer) *)
+Theorem dev_lifecycle_refines :
+  forall w m p h, dph (drun w h) = ph (run_state true (flat_map (lift m p) h)) m.
+Proof. exact dev_lifecycle_refines_l. Qed.
+Print Assumptions dev_lifecycle_refines.
+
+(* a persisted shot with a delayed disable event and a non-persisted one with a delayed enable event: control events
+   before the start find no handler, a redundant enable registers nothing new (one registration), the delays that are
+   pending at the stop cannot fire afterwards (status 2), a request posted while the mode is stopping is dropped by the
+   clean-up, the mode ends idle, the persisted flag survives and the raw one is reset *)
+Example ex_device_cycle :
+  dph (drun ex_world ex_dev_hist) = Idle /\
+  map (fun o => fst (snd (dstep ex_world (drun ex_world (firstn 9 ex_dev_hist)) o))) [DFire 0 0] = [2] /\
+  d_reg (dvs (drun ex_world (firstn 6 ex_dev_hist)) 0) = 1 /\
+  dly (drun ex_world (firstn 8 ex_dev_hist)) = [(1, 1); (0, 0)] /\
+  d_flag (dvs (drun ex_world ex_dev_hist) 0) = Some true /\ d_flag (dvs (drun ex_world ex_dev_hist) 1) = None.
+Proof. exact ex_dev_cycle. Qed.
+Print Assumptions ex_device_cycle.
+
+(* ================================================================================================================
+   ModeController._ball_ending / _ball_starting (Controller.v).  For every history h that led to the state in which the
+   ball ends and every configuration c: after the controller's stop requests and the completions the bus delivers for
+   them, every active game mode with stop_on_ball_end is Idle (hence, by registry_restored_after_stop, owns nothing),
+   and every mode the controller does not stop keeps its phase. *)
+Theorem ball_end_stops_game_modes :
+  forall c h, let s := run_state true h in
+  let l := ball_stop_list c (act s) in
+  let s' := run_ops s (ball_ending c s ++ stop_completions l) in
+  (forall m, In m (act s) -> mc_game (c m) = true -> mc_autostop (c m) = true -> ph s' m = Idle) /\
+  (forall m, ~ In m l -> ph s' m = ph s m).
+Proof. exact ball_end_stops_game_modes_l. Qed.
+Print Assumptions ball_end_stops_game_modes.
+
+(* at the next ball every remembered (restart_on_next_ball) mode that is idle is started, at its configured priority *)
+Theorem ball_start_restarts_remembered_modes :
+  forall c l s, NoDup l -> (forall m, In m l -> ph s m = Idle) ->
+  forall m, In m l -> ph (run_ops s (ball_starting c l)) m = Starting /\ pri (run_ops s (ball_starting c l)) m = mc_prio (c m).
+Proof. exact starts_take_effect. Qed.
+Print Assumptions ball_start_restarts_remembered_modes.
+
+(* three active modes (a non-game mode 3 at the top, game modes 1 and 2, 2 restarts): the ball end stops 1 and 2 in
+   list order, leaves 3 active, remembers 2; the next ball starts 2 again *)
+Example ex_ball_end :
+  let c := fun m => if m =? 3 then mkMC false false false 300 else mkMC true true (m =? 2) (m * 100) in
+  let h := [Start 1 100; Start 2 200; Start 3 300; QStarted 1; QStarted 2; QStarted 3] in
+  let s := run_state true h in
+  act s = [3; 2; 1] /\ ball_ending c s = [Stop 2; Stop 1] /\ ball_restart_list c (act s) = [2] /\
+  let s' := run_ops s (ball_ending c s ++ stop_completions (ball_stop_list c (act s))) in
+  act s' = [3] /\ ph s' 1 = Idle /\ ph (run_ops s' (ball_starting c [2])) 2 = Starting.
+Proof. vm_compute. repeat split. Qed.
+Print Assumptions ex_ball_end.
